@@ -46,7 +46,7 @@ func VerifyCar(file string) error {
 		if rx.Header.DataOffset < carv2.PragmaSize+carv2.HeaderSize {
 			return fmt.Errorf("data offset places data within carv2 header")
 		}
-		if rx.Header.IndexOffset < lengthToIndex {
+		if rx.Header.HasIndex() && rx.Header.IndexOffset < lengthToIndex {
 			return fmt.Errorf("index offset overlaps with data. data ends at %d. index offset of %d", lengthToIndex, rx.Header.IndexOffset)
 		}
 	}
